@@ -122,11 +122,14 @@ def ev(v, val, hooks=None):
                     raise Raised('LookupError')
                 except TypeError:
                     raise Raised('TypeError')
-            if isinstance(base, (str, bytes)) and a[1] in (
-                    'lower', 'upper', 'strip', 'startswith', 'endswith',
-                    'lstrip', 'rstrip', 'replace', 'split', 'count', 'join',
-                    'isascii', 'find', 'rsplit', 'partition'):
-                return getattr(base, a[1])(*args)
+            from .models import PURE_STR_METHODS
+            if isinstance(base, (str, bytes)) and a[1] in PURE_STR_METHODS:
+                try:
+                    return getattr(base, a[1])(*args)
+                except ValueError:
+                    raise Raised('ValueError')
+                except TypeError:
+                    raise Raised('TypeError')
         if op == 'attr' and len(a) == 2:
             base = ev(a[0], val, hooks)
             if isinstance(base, Obj):
@@ -143,6 +146,13 @@ def ev(v, val, hooks=None):
                 return ev(a[0], val, hooks) % ev(a[1], val, hooks)
             except (TypeError, ValueError) as e:
                 raise Raised(type(e).__name__)
+        if op == 'slice':
+            base = ev(a[0], val, hooks)
+            try:
+                return base[ev(a[1], val, hooks):ev(a[2], val, hooks):
+                            ev(a[3], val, hooks)]
+            except TypeError:
+                raise Raised('TypeError')
         if op == 'list':
             return [ev(x, val, hooks) for x in a]
         if op == 'set':
